@@ -138,7 +138,7 @@ def run(chk):
     # RejectsInvalid, MegaIdentity), with non-vacuity probes
     vlib.protocol_mc(chk)
     progs = []
-    for b in bases(chk.seed, 300 if q else 1100):
+    for b in bases(chk.seed, 300 if q else 600):
         # (that the undeviated statement is accepted is completeness, C01's business: here it is only counted - the property speaks of a
         #  proof that is accepted for one statement)
         progs.append({"id": "bind-%s-honest" % b["id"], "p": b["p"], "seed": b["seed"], "expect_p": "", "expect_v": "", "honest_base": True})
@@ -148,7 +148,8 @@ def run(chk):
     # (B2) every single deviation on the 256-bit curves: the proof made for the prover's statement must be rejected
     reps = 1 if q else 4
     for c in vlib.REAL_CURVES:
-        ps = [dict(p, seed=p["seed"] + 1000 * r, id=p["id"] + ("-r%d" % r if r else "")) for r in range(reps) for p in progs]
+        ps = [dict(p, seed=p["seed"] + 1000 * r, id=p["id"] + ("-r%d" % r if r else "")) for r in range(reps) for p in progs
+              if r == 0 or not p["id"].startswith(("bind-H-", "bind-I-"))]          # (the large statements once)
         rows = vlib.replay(chk, c, ps, "bind")
         vlib.report_replay(chk, rows, "binding")
         chk.cov["honest_bases_accepted"] = chk.cov.get("honest_bases_accepted", 0) + sum(1 for r_ in rows if r_["program"].get("honest_base") and r_["vres"] == "ok")
@@ -179,7 +180,7 @@ def run(chk):
     for p in progs:
         chk.count_case(["toy31723", p["id"]])
     chk.finish(
-        rule="a large statement (300 / 1100 rows over two committed values: the constant of every single row and the coefficient in every fourth row changed in turn), a statement with 300 / 1100 commitments (each single commitment's value changed in turn) and seven base statements (one- and two-phase, zero to five gates, committed-only and constant-only constraints, application data before and "
+        rule="a large statement (300 / 600 rows over two committed values: the constant of every single row and the coefficient in every fourth row changed in turn), a statement with 300 / 600 commitments (each single commitment's value changed in turn) and seven base statements (one- and two-phase, zero to five gates, committed-only and constant-only constraints, application data before and "
              "during construction in both phases) x every single verifier-side deviation - transcript label; application data added, missing, changed, "
              "relabelled (before construction, in phase 1, inside a callback); each commitment's value or blinding changed; extra, missing, reordered "
              "commitment; each coefficient over a committed value and each constant changed; blinding base; value base - replayed on secq256k1, zorro, "
